@@ -26,7 +26,7 @@ import gen_svgtree
 import gen_readsites
 
 NS = 'xmlns="http://www.w3.org/2000/svg" xmlns:xlink="http://www.w3.org/1999/xlink"'
-MY_TIES = ('SvgTables', 'gen_svgtree', 'units.convert_length', 'gen_units', 'translate.py', 'ReadSites', 'gen_readsites')
+MY_TIES = ('SvgTables', 'gen_svgtree', 'units.convert_length', 'gen_units', 'translate.py', 'ReadSites', 'gen_readsites', 'FontWeight', 'gen_fontweight')
 
 
 def hexs(s):
@@ -203,6 +203,8 @@ def render_xml(n, root=True):
         a += ' %s="%s"' % (k, v)
     if n.style:
         pass
+    if getattr(n, 'raw_css', None) is not None:
+        return '<style>%s</style>' % n.raw_css
     if n.sheet is not None:
         typ, rules = n.sheet
         return '<style%s>%s</style>' % ((' type="%s"' % typ) if typ else '', sheet_text(rules))
@@ -718,9 +720,14 @@ def run_selector(ctx, binp, T, n_docs):
     cases = []
     for ci in range(n_docs):
         root, nodes, inj, doc_rules = s_gen(rng, T, ci)
-        # the style element is the LAST child of the root: it precedes no element (sibling positions undisturbed)
+        # the style element sits anywhere among the children of the root or of a container: it IS a previous sibling for
+        # :first-child and `+` (the model keeps it in the matching tree, si_tree = false), but not an svgtree node
+        holder = rng.choice([root, root] + [m for m in nodes if m.tag in ('g', 'defs')])
+        st = XNode('style')
+        st.parent = holder
+        st.raw_css = s_sheet_text(doc_rules)
+        holder.children.insert(rng.below(len(holder.children) + 1), st)
         xml = render_xml(root)
-        xml = xml[:-len('</svg>')] + '<style>%s</style></svg>' % s_sheet_text(doc_rules)
         cases.append((xml, inj, doc_rules, root))
     outs = ctx.rvh_batch(binp, 'svgtree', ["%s\t%s" % (('css=' + hexs(s_sheet_text(c[1]))) if c[1] else '-', c[0]) for c in cases])
     coq_cases, idx_map = [], []
@@ -736,9 +743,9 @@ def run_selector(ctx, binp, T, n_docs):
             continue
         elems = parse_dump(r['dump'])
         order = list(all_nodes(root))
-        if [t for t, _ in elems] != [n.tag for n in order]:
+        if [t for t, _ in elems] != [n.tag for n in order if n.tag != 'style']:
             ctx.violation("selector: element sequence of the svgtree differs from the document: %s vs %s"
-                          % ([t for t, _ in elems], [n.tag for n in order]), replay)
+                          % ([t for t, _ in elems], [n.tag for n in order if n.tag != 'style']), replay)
             continue
         rules_coq = []
         for sels, ds in list(inj) + list(doc_rules):
@@ -760,8 +767,8 @@ def run_selector(ctx, binp, T, n_docs):
             info = '{| ei_tag := %s; ei_attrs := [%s] |}' % (coq_str(n.tag), '; '.join('(%s, %s)' % (coq_str(k), coq_str(v)) for k, v in n.attrs))
             attrs = ['(%s, %s)' % (T.A(k), coq_str(v)) for k, v in n.attrs if k in T.aname2ctor]
             sty = ["dc %s %s %s" % (T.A(nm), coq_str(v), 'true' if imp else 'false') for nm, v, imp in n.style]
-            items.append('{| si_parent := %s; si_info := %s; si_x := xe %s false [%s] [] [%s] |}' % (
-                par, info, T.E(n.tag), '; '.join(attrs), '; '.join(sty)))
+            items.append('{| si_parent := %s; si_info := %s; si_x := xe %s false [%s] [] [%s]; si_tree := %s |}' % (
+                par, info, T.E(n.tag), '; '.join(attrs), '; '.join(sty), 'false' if n.tag == 'style' else 'true'))
         stats['matched_rule_elements'] += sum(1 for _, at in elems for a in at if re.fullmatch(r"r\d+", a[1]))
         ctx.note_case('selector/' + xml + (s_sheet_text(inj) if inj else ''),
                       nontrivial=any(re.fullmatch(r"r\d+", a[1]) for _, at in elems for a in at))
@@ -790,6 +797,110 @@ def run_selector(ctx, binp, T, n_docs):
                       "(sort_rules) + cascade over the rule list",
                       dict(op='svgtree', doc=xml, injected_css=s_sheet_text(inj) if inj else None,
                            impl=[[t, a] for t, a in parse_dump(json.loads(outs[i])['dump'])], model_items=coq_cases[b][:4000]))
+    return True
+
+
+# ---------------------------------------------------------------------------------------- font-weight (K4 + notation pairs)
+FW_ABS = ['normal', '400', 'bold', '700', '100', '200', '300', '500', '600', '800', '900']
+FW_SAME = {'normal': '400', '400': 'normal', 'bold': '700', '700': 'bold'}
+
+
+def fw_doc(chain, spell):
+    """svg > g* > text with the chain's font-weight values (root first; '' = not specified); spell[i] in attr/style/css"""
+    rules = []
+
+    def decl(i, v):
+        if v == '':
+            return ''
+        if spell[i] == 'style':
+            return ' style="font-weight:%s"' % v
+        if spell[i] == 'css':
+            rules.append('#w%d{font-weight:%s}' % (i, v))
+            return ''
+        return ' font-weight="%s"' % v
+    n = len(chain)
+    inner = '<text id="w%d" x="10" y="40"%s>Text</text>' % (n - 1, decl(n - 1, chain[-1]))
+    for i in range(n - 2, 0, -1):
+        inner = '<g id="w%d"%s>%s</g>' % (i, decl(i, chain[i]), inner)
+    d0 = decl(0, chain[0])
+    st = ('<style>%s</style>' % ' '.join(rules)) if rules else ''
+    return '<svg %s id="w0" width="200" height="100" font-family="Noto Sans" font-size="20"%s>%s%s</svg>' % (NS, d0, st, inner)
+
+
+def run_font_weight(ctx, binp, T, n):
+    """chains of font-weight values over svg > g* > text, fonts loaded, text preserved (`wpt`): the weight of the span vs
+    Gen.FontWeight.fw_resolve (compared in Coq), and - the notation clause - the same chain with absolute weights re-spelled
+    (normal <-> 400, bold <-> 700) anywhere, in particular above bolder / lighter: same tree, preserved and flattened"""
+    rng = ctx.rng
+    chains = []
+    for k in range(n):
+        depth = 2 + rng.below(4)
+        c = []
+        for i in range(depth):
+            r = rng.below(10)
+            c.append('' if r < 2 else rng.choice(['bolder', 'lighter']) if r < 5 else rng.choice(FW_ABS[:4]) if r < 8 else rng.choice(FW_ABS))
+        if k % 2 == 0:
+            # directed: an absolute weight with a second spelling somewhere above a relative keyword
+            i = rng.below(depth - 1)
+            c[i] = rng.choice(sorted(FW_SAME))
+            c[i + 1 + rng.below(depth - 1 - i)] = rng.choice(['bolder', 'lighter'])
+        chains.append(c)
+    items, meta = [], []
+    for c in chains:
+        spell = [rng.choice(['attr', 'attr', 'style', 'css']) for _ in c]
+        v = [FW_SAME[x] if (x in FW_SAME and rng.below(3) > 0) else x for x in c]
+        if v == c:
+            idx = [i for i, x in enumerate(c) if x in FW_SAME]
+            if idx:
+                i = rng.choice(idx)
+                v[i] = FW_SAME[c[i]]
+        spell2 = [rng.choice(['attr', 'style', 'css']) for _ in c]
+        a, b = fw_doc(c, spell), fw_doc(v, spell2)
+        items += ["wpt\t" + a, "wpt\t" + b, "-\t" + a, "-\t" + b]
+        meta.append((c, v, a, b))
+    outs = ctx.rvh_batch(binp, 'tostring', items, per_item_timeout=30)
+    coq_cases, idx_map = [], []
+    nfail = 0
+    for k, (c, v, a, b) in enumerate(meta):
+        try:
+            js = [json.loads(o) for o in outs[4 * k:4 * k + 4]]
+        except (TypeError, ValueError):
+            js = [{}] * 4
+        replay = dict(op='tostring', opts='wpt', canonical=a, variant=b, chain=c, respelled=v)
+        if any('s' not in j for j in js):
+            ctx.violation("font-weight: a generated chain document failed to convert: %s" % str(js)[:200], replay)
+            continue
+        ws = re.findall(r'font-weight="(\d+)"', js[0]['s'])
+        if '<text' not in js[0]['s']:
+            ctx.violation("font-weight: the text element did not survive conversion (fonts not loaded?)", replay)
+            continue
+        coq_cases.append("([%s], %s%%Z)" % ('; '.join(coq_str(x) for x in c), ws[-1] if ws else '400'))
+        idx_map.append(k)
+        ctx.note_case('font-weight/' + a + b, nontrivial=any(x in ('bolder', 'lighter') for x in c))
+        for (x, y, what) in ((js[0]['s'], js[1]['s'], 'preserved text'), (js[2]['s'], js[3]['s'], 'flattened text')):
+            eq, why, _ = compare_strings(x, y)
+            if not eq:
+                nfail += 1
+                if nfail <= 3:
+                    replay2 = dict(replay, difference=why, opts='wpt' if what == 'preserved text' else '-')
+                    ctx.violation("spelling: font-weight chains that differ only in the notation of absolute weights (%s vs %s: normal = 400, "
+                                  "bold = 700) resolve differently (%s): %s" % (c, v, what, why), replay2)
+                break
+    ctx.cov['font_weight_chains'] = len(meta)
+    if not coq_cases:
+        return False
+    body = ("From Coq Require Import String.\nLocal Open Scope string_scope.\n"
+            "Definition cases : list (list string * Z) := [\n%s\n].\nEval vm_compute in (bad_indices fw_case_ok cases).\n" % ";\n".join(coq_cases))
+    rc, out = ctx.coq_eval('k_fontweight', body, ['Model.Base', 'Model.Corr', 'Gen.FontWeight', 'Model.CascadeFont'])
+    bad = ctx.parse_N_list(out) if rc == 0 else None
+    if bad is None:
+        ctx.log("font-weight: model evaluation failed:\n" + out[-1500:])
+        return False
+    ctx.cov['correspondence_cases'] = ctx.cov.get('correspondence_cases', 0) + len(coq_cases)
+    for bi in bad[:3]:
+        c, v, a, b = meta[idx_map[bi]]
+        ctx.violation("font-weight: the weight of the text span differs from Gen.FontWeight.fw_resolve over the ancestor chain %s "
+                      "(model case %s)" % (c, coq_cases[bi]), dict(op='tostring', opts='wpt', canonical=a, variant=a, chain=c))
     return True
 
 
@@ -2012,6 +2123,7 @@ def run(ctx):
         model_ok = run_cascade(ctx, binp, T, 400 if quick else 2500)
         model_ok = run_find_attr(ctx, binp, T, 250 if quick else 1500) and model_ok
         model_ok = run_selector(ctx, binp, T, 300 if quick else 2000) and model_ok
+    run_font_weight(ctx, binp, T, 120 if quick else 800)
     nviol_before = len(ctx.violations)
     if quick and proof_ok:
         run_spelling(ctx, binp, T, 70, 8)
@@ -2107,7 +2219,7 @@ def replay(ctx, path):
         print("harness does not build")
         return 1
     if rp.get('op') == 'tostring' and 'canonical' in rp:
-        opts = "dpi=%s" % rp.get('dpi', 96)
+        opts = rp.get('opts') or ("dpi=%s" % rp.get('dpi', 96))
         inj = rp.get('injected_css')
         outs = ctx.rvh_batch(binp, 'tostring', ["%s\t%s" % (opts, rp['canonical']),
                                                 "%s%s\t%s" % (opts, (';css=' + hexs(inj)) if inj else '', rp['variant'])])
